@@ -6,8 +6,11 @@
 //! Oracle: a model of every live snapshot, checked after *every* operation through a fresh handle;
 //! `check --read-data` after every prune and at the end; the two-phase-deletion invariant.
 
+use std::collections::BTreeMap;
+
 use proptest::prelude::*;
 use serde::{Deserialize, Serialize};
+use vpcore::fmt::Id32;
 
 use crate::{
     engine::{Ctx, DynSub, Outcome, PropSpec, Sub},
@@ -47,6 +50,7 @@ pub fn run_history(c: &Case, out: &mut Outcome) -> Result<World, String> {
     };
     let mut ops: Vec<&HOp> = vec![&first];
     ops.extend(c.ops.iter());
+    let mut marked_at: BTreeMap<Id32, i64> = BTreeMap::new();
     for (i, op) in ops.iter().enumerate() {
         let packs_before = w.packs();
         let view_before = w.index().map_err(|e| format!("op #{i}: index unreadable before the operation: {e}"))?;
@@ -65,23 +69,41 @@ pub fn run_history(c: &Case, out: &mut Outcome) -> Result<World, String> {
                 ));
             }
         }
-        let prune_cfg: Option<&PruneCfg> = match op {
-            HOp::Prune(p) => Some(p),
-            HOp::PruneThenStaleBackup { prune, .. } => Some(prune),
-            _ => None,
+        let prune_cfgs: Vec<&PruneCfg> = match op {
+            HOp::Prune(p) => vec![p],
+            HOp::PruneThenStaleBackup { prune, .. } => vec![prune],
+            HOp::PrunesThenStaleBackup { prunes, .. } => prunes.iter().collect(),
+            _ => vec![],
         };
-        if let Some(p) = prune_cfg {
+        // the harness's own record of when (in hours of `HOp::Age` time) a pack was first seen
+        // marked; the time recorded in the index is the library's business and not trusted here
+        let marked_since: BTreeMap<Id32, i64> = view_before
+            .marked
+            .keys()
+            .map(|k| (*k, *marked_at.get(k).unwrap_or(&w.vhours)))
+            .collect();
+        marked_at.retain(|k, _| view.marked.contains_key(k));
+        for k in view.marked.keys() {
+            _ = marked_at.entry(*k).or_insert(w.vhours);
+        }
+        // several prunes inside one operation are judged as one: all of them are keep-delete 23 h
+        if let Some(p) = prune_cfgs.first().copied() {
             if !p.instant_delete {
                 // two-phase deletion: a pack may disappear only if it was already marked before
                 // this prune and the keep-delete time (0) has passed
                 for gone in packs_before.difference(&packs_after) {
                     let was_marked = view_before.marked.contains_key(gone);
-                    if !(was_marked && !p.keep_delete_23h) {
+                    let marked_for = marked_since.get(gone).map_or(0, |since| w.vhours - since);
+                    if !(was_marked && (!p.keep_delete_23h || marked_for >= 23)) {
                         return Err(format!(
                             "after op #{i}: a non-instant prune (keep-delete {}) removed pack {} which was {}",
                             if p.keep_delete_23h { "23h" } else { "0" },
                             &hex::encode(gone)[..8],
-                            if was_marked { "marked only moments ago" } else { "not marked for deletion before" }
+                            if was_marked {
+                                format!("marked for deletion only {marked_for} h ago")
+                            } else {
+                                "not marked for deletion before".to_string()
+                            }
                         ));
                     }
                 }
@@ -126,6 +148,8 @@ pub fn op_name(op: &HOp) -> &'static str {
         HOp::DupIndex { .. } => "duplicate-index-file",
         HOp::CutBackup { .. } => "interrupted-backup",
         HOp::PruneThenStaleBackup { .. } => "prune-then-backup-on-stale-handle",
+        HOp::PrunesThenStaleBackup { .. } => "several-prunes-then-backup-on-stale-handle",
+        HOp::Age { .. } => "time-passes",
     }
 }
 
